@@ -23,14 +23,21 @@ def build(asm_expanded):
     # ------------------------------------------------------------------ crate root (lib.rs)
     root = u.module('', file='crates/vm/src/lib.rs', uses='''pub use crate::stack::Stack; pub use crate::memory::Memory; pub use crate::repeat::Repeat;
 pub use crate::essential_asm as asm; pub use crate::essential_asm::Op; pub use crate::essential_types as types;
-pub use crate::total_control_flow::ProgramControlFlow; pub use crate::state_read::{StateRead, StateReads};''')
+pub use crate::total_control_flow::ProgramControlFlow; pub use crate::state_read::{StateRead, StateReads}; pub use crate::op_access::OpAccess; pub use crate::cached::LazyCache; pub use crate::access::Access; pub use crate::vm::Vm;''')
     root.item('type Gas')
     root.item('struct GasLimit')
+    root.trait('trait OpGasCost', [F('op_gas_cost', ensures='r == self.spec_cost(*op)', props=('C07',))],
+               extra='    spec fn spec_cost(&self, op: Op) -> Gas;')
     # ------------------------------------------------------------------ essential-types
     ty = u.module('essential_types', file='crates/types/src/lib.rs', uses='')
     for t in ('type Word', 'type Key', 'type Value', 'type Hash', 'struct PredicateAddress'):
         ty.item(t)
     ty.item('struct ContentAddress', assumed_clone=True)
+    ty.stub('#[verifier::external] impl core::fmt::Debug for ContentAddress { fn fmt(&self, f: &mut core::fmt::Formatter<\'_>) -> core::fmt::Result { f.write_str("ContentAddress") } }\n',
+            'hand-written Debug impl of ContentAddress (crates/types/src/fmt.rs), needed only as a trait bound')
+    sol = u.module('solution', file='crates/types/src/solution.rs', parent=ty, uses='use crate::essential_types::{Key, PredicateAddress, Value, Word};')
+    for t in ('type SolutionIndex', 'struct Solution', 'struct Mutation'):
+        sol.item(t)
     conv = u.module('convert', file='crates/types/src/convert.rs', parent=ty, uses='use crate::essential_types::*;')
     conv.spec('''pub uninterp spec fn spec_word_4_from_u8_32(b: [u8; 32]) -> [i64; 4];
 pub uninterp spec fn spec_u8_32_from_word_4(w: [i64; 4]) -> [u8; 32];
@@ -56,8 +63,10 @@ use crate::ext::asm_errors as asm; use crate::ext::ed25519_dalek; use crate::ext
               'enum DecodeError', 'enum EncodeError'):
         er.item(t)
 
+    er.stub('#[verifier::external] impl core::fmt::Debug for StackError { fn fmt(&self, f: &mut core::fmt::Formatter<\'_>) -> core::fmt::Result { f.write_str("StackError") } }\n',
+            'derived Debug of StackError, needed only as the trait bound of Result::expect')
     er.spec('''
-pub open spec fn err_plain<E>(e: OpError<E>) -> bool { !(e is Compute) && !(e is StateRead) }
+pub open spec fn err_plain<E>(e: OpError<E>) -> bool { !(e is Compute) && !(e is StateRead) && !(e is OutOfGas) }
 impl<E> vstd::std_specs::convert::FromSpecImpl<StateReadArgError> for OpError<E> {
     open spec fn obeys_from_spec() -> bool { true }
     open spec fn from_spec(e: StateReadArgError) -> Self { match e { StateReadArgError::Memory(m) => OpError::Memory(m), StateReadArgError::Stack(s) => OpError::Stack(s) } } }
@@ -76,7 +85,7 @@ impl<E> vstd::std_specs::convert::FromSpecImpl<core::convert::Infallible> for Op
 use crate::essential_types::Word; use crate::error::{LenWordsError, StackError, StackResult};
 use crate::essential_types::convert::bool_from_word; use crate::*;
 ''')
-    st.item('struct Stack')
+    st.item('struct Stack', assumed_clone=True)
     st.spec('''
 impl View for Stack { type V = Seq<i64>; closed spec fn view(&self) -> Seq<i64> { self.0@ } }
 broadcast use {crate::iter_items_array, crate::iter_items_vec};
@@ -325,6 +334,21 @@ pub assume_specification [<Repeat as core::default::Default>::default] () -> (r:
 use crate::error::{OpError, OpResult, StackError, TotalControlFlowError}; use crate::{Gas, Stack};
 use crate::essential_types::convert::bool_from_word; use crate::*; broadcast use crate::spec_from_is_from;""")
     tc.item('enum ProgramControlFlow')
+    tc.spec('''
+// where execution continues after an op at `pc` whose step returned `c` (C09)
+pub open spec fn ctrl_next(pc: usize, c: Option<ProgramControlFlow>) -> int { match c {
+    None => pc + 1, Some(ProgramControlFlow::Pc(n)) => n as int, Some(ProgramControlFlow::ComputeResult((p, _, _))) => p as int,
+    Some(ProgramControlFlow::Halt) => pc as int, Some(ProgramControlFlow::ComputeEnd) => pc + 1 } }
+// whether execution stops after that op (halt0 = the machine's halt flag before the run)
+pub open spec fn ctrl_stops(c: Option<ProgramControlFlow>, halt0: bool) -> bool { match c {
+    Some(ProgramControlFlow::Halt) => true, Some(ProgramControlFlow::ComputeEnd) => true,
+    Some(ProgramControlFlow::ComputeResult((_, _, h))) => halt0 || h, _ => false } }
+pub open spec fn ctrl_kind_ok(op: crate::Op, c: Option<ProgramControlFlow>) -> bool { match c {
+    None => !(op is Compute),
+    Some(x) => match op {
+        crate::Op::Stack(o) => x is Pc, crate::Op::TotalControlFlow(o) => x is Pc || x is Halt,
+        crate::Op::Compute(o) => (o is ComputeEnd ==> x is ComputeEnd) && (o is Compute ==> x is ComputeResult), _ => false } } }
+''')
     tc.fn('jump_if', F('jump_if', requires='stack_wf(old(stack)@)', ensures="""stack_wf(final(stack)@), r matches Err(e) ==> crate::error::err_plain(e),
             old(stack)@.len() < 2 ==> r is Err,
             old(stack)@.len() >= 2 ==> ({ let n = old(stack)@.len() as int;
@@ -348,10 +372,64 @@ use crate::essential_types::convert::bool_from_word; use crate::*; broadcast use
           note='`.iter().copied()` is a provided trait method Verus cannot specify; Kani K2 through step_op_total_control_flow(PanicIf)',
           props=('C05', 'C09')))
 
+    # ------------------------------------------------------------------ access
+    ac = u.module('access', file='crates/vm/src/access.rs', uses="""
+use crate::error::{AccessError, MissingAccessArgError, OpResult, OpError, err_plain}; use crate::repeat::Repeat; use crate::Stack;
+use crate::essential_types::{convert::{u8_32_from_word_4, word_4_from_u8_32, spec_word_4_from_u8_32}, solution::{Solution, SolutionIndex}, Value, Word};
+use std::sync::Arc; use crate::*;
+broadcast use {crate::spec_from_is_from, crate::iter_items_array, crate::iter_items_vec, crate::axiom_vec_i64_len, crate::axiom_slice_vec_i64_len};""")
+    ac.item('struct Access', assumed_clone=True)
+    ac.spec("""
+pub open spec fn access_wf(a: Access) -> bool { a.index < a.solutions@.len() }
+""")
+    ac.impl('impl Access', [
+        F('this_solution', requires='access_wf(*self)', ensures='*r == self.solutions@[self.index as int]', props=('C05', 'C12')),
+    ])
+    SWS = 'stack_wf(old(stack)@)'
+    ac.fn('predicate_data', F('predicate_data', mode='assumed', requires=SWS, ensures="""stack_wf(final(stack)@), r matches Err(e) ==> err_plain(e),
+            match crate::sp_pred_data(old(stack)@, this_predicate_data.deep_view()) { Some(s) => r is Ok && final(stack)@ =~= s, None => r is Err }""",
+        note='`words.iter().copied()` is a provided trait method Verus cannot specify; arithmetic is in range_from_start_len / resolve_predicate_data_range (verified); Kani K2 through step_op_access(PredicateData)',
+        props=('C05', 'C12')))
+    ac.fn('predicate_data_len', F('predicate_data_len', requires=SWS, ensures="""stack_wf(final(stack)@),
+            match crate::sp_pred_data_len(old(stack)@, this_predicate_data.deep_view()) { Some(s) => r is Ok && final(stack)@ =~= s, None => r is Err }""",
+        head_proof='assert(this_predicate_data.deep_view().len() == this_predicate_data@.len()); assert(forall|i: int| 0 <= i < this_predicate_data@.len() ==> #[trigger] this_predicate_data.deep_view()[i] == this_predicate_data@[i]@);',
+        props=('C05', 'C12')))
+    ac.fn('this_address', F('this_address', requires=SWS, ensures="""stack_wf(final(stack)@), r matches Err(e) ==> err_plain(e),
+            old(stack)@.len() + 4 <= 4096 ==> r is Ok && final(stack)@ =~= old(stack)@ + spec_word_4_from_u8_32(solution.predicate_to_solve.predicate.0)@,
+            old(stack)@.len() + 4 > 4096 ==> r is Err""", props=('C05', 'C12')))
+    ac.fn('this_contract_address', F('this_contract_address', requires=SWS, ensures="""stack_wf(final(stack)@), r matches Err(e) ==> err_plain(e),
+            old(stack)@.len() + 4 <= 4096 ==> r is Ok && final(stack)@ =~= old(stack)@ + spec_word_4_from_u8_32(solution.predicate_to_solve.contract.0)@,
+            old(stack)@.len() + 4 > 4096 ==> r is Err""", props=('C05', 'C12')))
+    ac.fn('repeat_counter', F('repeat_counter', params={'repeat': 'repeat_'}, requires=SWS, ensures="""stack_wf(final(stack)@), r matches Err(e) ==> err_plain(e),
+            repeat_@.len() > 0 && old(stack)@.len() < 4096 ==> r is Ok && final(stack)@ =~= old(stack)@.push(repeat_@.last().counter),
+            !(repeat_@.len() > 0 && old(stack)@.len() < 4096) ==> r is Err""", props=('C05', 'C09', 'C12')))
+    ac.fn('predicate_data_slots', F('predicate_data_slots', requires=SWS, ensures="""stack_wf(final(stack)@), r matches Err(e) ==> err_plain(e),
+            match crate::sp_pred_data_slots(old(stack)@, predicate_data.deep_view()) { Some(s) => r is Ok && final(stack)@ =~= s, None => r is Err }""",
+        head_proof='assert(predicate_data.deep_view().len() == predicate_data@.len());',
+        props=('C05', 'C12')))
+    ac.fn('resolve_predicate_data_range', F('resolve_predicate_data_range', ensures="""
+            slot_ix < predicate_data@.len() && value_range_ix.start <= value_range_ix.end && value_range_ix.end <= predicate_data@[slot_ix as int]@.len()
+                ==> r is Ok && r->Ok_0@ =~= predicate_data@[slot_ix as int]@.subrange(value_range_ix.start as int, value_range_ix.end as int),
+            !(slot_ix < predicate_data@.len() && value_range_ix.start <= value_range_ix.end && value_range_ix.end <= predicate_data@[slot_ix as int]@.len()) ==> r is Err""",
+        props=('C05', 'C12')))
+    ac.fn('resolve_predicate_data_len', F('resolve_predicate_data_len', ensures="""
+            slot_ix < predicate_data@.len() ==> r == Ok::<usize, AccessError>(predicate_data@[slot_ix as int]@.len() as usize),
+            slot_ix >= predicate_data@.len() ==> r is Err""",
+        rewrites=[('R9', '|slot| slot.len()', '|slot: &Value| -> (l: usize) ensures l == slot@.len() { slot.len() }')], props=('C05', 'C12')))
+    ac.fn('range_from_start_len', F('range_from_start_len', ensures="""
+            0 <= start && 0 <= len && start + len <= usize::MAX ==> r is Some && r->Some_0.start == start && r->Some_0.end == start + len,
+            !(0 <= start && 0 <= len && start + len <= usize::MAX) ==> r is None""", props=('C05', 'C12')))
+    ac.fn('predicate_exists', F('predicate_exists', mode='assumed_sig', requires=SWS, ensures='stack_wf(final(stack)@), r matches Err(e) ==> err_plain(e)',
+          note='LazyCache (OnceLock<HashSet>) + SHA-256: external; only the resource-bound / error-class part is assumed here', props=('C05', 'C12')))
+    ca = u.module('cached', file='crates/vm/src/cached.rs', uses='use crate::essential_types::{solution::Solution, Hash}; use std::{collections::HashSet, sync::{Arc, OnceLock}};')
+    ca.item('struct LazyCache', extra_attrs='#[verifier::external_body]\n')
+    oa = u.module('op_access', file='crates/vm/src/op_access.rs', uses='use crate::*;')
+    oa.trait('trait OpAccess', [F('op_access', ensures='r == self.spec_op_access(index)', props=('C07', 'C09', 'C14'))],
+             extra='    spec fn spec_op_access(&self, index: usize) -> Option<Result<Self::Op, Self::Error>>;')
     # ------------------------------------------------------------------ sync dispatchers
     sy = u.module('sync', file='crates/vm/src/sync.rs', uses="""
 use crate::{alu, asm, error::{OpError, OpResult, ParentMemoryError, err_plain}, pred, repeat, total_control_flow, Memory, ProgramControlFlow, Repeat, Stack, StateReads, state_read::StateRead};
-use crate::essential_types::ContentAddress;
+use crate::essential_types::ContentAddress; use crate::compute::ComputeInputs; use crate::{access, Access, GasLimit, LazyCache, OpAccess, OpGasCost, Vm, Op};
 use crate::essential_asm; use crate::essential_types::Word; use crate::*; use std::sync::Arc;
 broadcast use {crate::spec_from_is_from, crate::iter_items_array, crate::iter_items_vec};""")
     sy.spec("""
@@ -561,4 +639,121 @@ pub open spec fn read_outcome<E>(res: Result<Seq<Seq<i64>>, E>, r: Result<(), Op
                             if post { state.spec_post().spec_key_range(*contract_addr, key, n as usize) } else { state.spec_pre().spec_key_range(*contract_addr, key, n as usize) },
                             r, old(memory)@, final(memory)@, addr) } }) }""",
           props=('C05', 'C11', 'C03')))
+
+    sy.fn('step_op_access', F('step_op_access', params={'repeat': 'repeat_'}, requires=SW + ', crate::access::access_wf(access)', ensures=SWE + """,
+            r matches Err(e) ==> err_plain(e), final(repeat_)@ == old(repeat_)@,
+            ({ let sol = access.solutions@[access.index as int];
+               match op {
+                asm::Access::PredicateData => match crate::sp_pred_data(old(stack)@, sol.predicate_data.deep_view()) { Some(s) => r is Ok && final(stack)@ =~= s, None => r is Err },
+                asm::Access::PredicateDataLen => match crate::sp_pred_data_len(old(stack)@, sol.predicate_data.deep_view()) { Some(s) => r is Ok && final(stack)@ =~= s, None => r is Err },
+                asm::Access::PredicateDataSlots => match crate::sp_pred_data_slots(old(stack)@, sol.predicate_data.deep_view()) { Some(s) => r is Ok && final(stack)@ =~= s, None => r is Err },
+                asm::Access::ThisAddress => if old(stack)@.len() + 4 <= 4096 { r is Ok && final(stack)@ =~= old(stack)@ + crate::essential_types::convert::spec_word_4_from_u8_32(sol.predicate_to_solve.predicate.0)@ } else { r is Err },
+                asm::Access::ThisContractAddress => if old(stack)@.len() + 4 <= 4096 { r is Ok && final(stack)@ =~= old(stack)@ + crate::essential_types::convert::spec_word_4_from_u8_32(sol.predicate_to_solve.contract.0)@ } else { r is Err },
+                asm::Access::RepeatCounter => if old(repeat_)@.len() > 0 && old(stack)@.len() < 4096 { r is Ok && final(stack)@ =~= old(stack)@.push(old(repeat_)@.last().counter) } else { r is Err },
+                asm::Access::PredicateExists => true } })""",
+        rewrites=[('R7', '.map_err(From::from)', '.map_err(|e: crate::error::AccessError| -> (o: OpError) ensures o == OpError::<core::convert::Infallible>::Access(e) { From::from(e) })')],
+        props=('C05', 'C12', 'C09')))
+
+    # ------------------------------------------------------------------ compute (assumed) + vm
+    cm = u.module('compute', file='crates/vm/src/compute.rs', uses="""
+use crate::error::{ComputeError, ExecError, MemoryError, OpError, OpResult}; use crate::{Access, Gas, GasLimit, LazyCache, Memory, Op, OpAccess, OpGasCost, Repeat, Stack, StateReads, Vm};
+use std::sync::Arc; use crate::*;""")
+    cm.item('const MAX_COMPUTE_DEPTH')
+    cm.item('struct ComputeInputs')
+    cm.fn('compute', F('compute', mode='assumed_sig',
+          requires='stack_wf(old(inputs.stack)@), mem_wf(old(inputs.memory)@)',
+          ensures='stack_wf(final(inputs.stack)@), mem_wf(final(inputs.memory)@), r matches Err(e) ==> e is Compute',
+          note='rayon fork/join of child VMs: outside Verus (closures capturing &mut, rayon) and Kani (threads); only the resource-bound part of its contract is assumed here; the join (compute_effects) is Kani K2',
+          props=('C05', 'C07', 'C10')))
+    vmm = u.module('vm', file='crates/vm/src/vm.rs', uses="""
+use crate::error::{EvalError, EvalResult, ExecError, OpError, OutOfGasError, err_plain}; use crate::sync::step_op;
+use crate::{Access, Gas, GasLimit, LazyCache, Memory, Op, OpAccess, OpGasCost, ProgramControlFlow, Repeat, Stack, StateReads};
+use crate::essential_types::convert::bool_from_word; use std::sync::Arc; use crate::*;
+broadcast use crate::spec_from_is_from;""")
+    vmm.item('struct Vm')
+    vmm.spec("""
+pub open spec fn vm_wf(vm: Vm) -> bool {
+    stack_wf(vm.stack@) && mem_wf(vm.memory@) && repeat_wf(vm.repeat@) && vm.parent_memory@.len() <= 1 }
+""")
+
+    sy.fn('step_op_crypto', F('step_op_crypto', mode='assumed_sig', requires=SW, ensures=SWE + ', r matches Err(e) ==> err_plain(e)',
+          note='SHA-256 / ed25519 / secp256k1 primitives are external crates (FFI); only the resource-bound / error-class part is assumed', props=('C05', 'C12')))
+    sy.fn('step_op_compute', F('step_op_compute', requires='stack_wf(old(inputs.stack)@), mem_wf(old(inputs.memory)@)',
+          ensures="""stack_wf(final(inputs.stack)@), mem_wf(final(inputs.memory)@), r matches Err(e) ==> e is Compute,
+            op is ComputeEnd ==> r is Ok && r->Ok_0 == ProgramControlFlow::ComputeEnd && final(inputs.stack)@ == old(inputs.stack)@ && final(inputs.memory)@ == old(inputs.memory)@,
+            op is Compute && r is Ok ==> r->Ok_0 is ComputeResult""",
+          rewrites=[('R7', '.map(ProgramControlFlow::ComputeResult)', '.map(|t: (usize, Gas, bool)| -> (o: ProgramControlFlow) ensures o == ProgramControlFlow::ComputeResult(t) { ProgramControlFlow::ComputeResult(t) })')],
+          props=('C05', 'C10')))
+
+    sy.fn('step_op', F('step_op', requires='crate::vm::vm_wf(*old(vm)), crate::access::access_wf(access)', ensures="""
+            crate::vm::vm_wf(*final(vm)), final(vm).pc == old(vm).pc, final(vm).halt == old(vm).halt,
+            final(vm).parent_memory@ == old(vm).parent_memory@,
+            r matches Ok(c) ==> crate::total_control_flow::ctrl_kind_ok(op, c),
+            r matches Err(e) ==> !(e is OutOfGas)""",
+        rewrites=[('R9', '.map(|_| None)', '.map(|_u: ()| -> (o: Option<ProgramControlFlow>) ensures o is None { None })', 'all'),
+                  ('R7', '.map_err(OpError::from_infallible)', '.map_err(|e: OpError| -> (o: OpError<S::Error>) requires err_plain(e) ensures err_plain(o) { OpError::from_infallible(e) })', 'all'),
+                  ('R7', '.map(Some)', '.map(|c: ProgramControlFlow| -> (o: Option<ProgramControlFlow>) ensures o == Some(c) { Some(c) })')],
+        props=('C05', 'C07', 'C09', 'C10')))
+
+    vmm.spec("""
+// cost of the ops fetched at the visited program counters
+pub open spec fn trace_cost<OA: OpAccess<Op = Op>, OG: OpGasCost>(oa: OA, og: OG, pcs: Seq<usize>) -> int decreases pcs.len() {
+    if pcs.len() == 0 { 0 } else {
+        trace_cost(oa, og, pcs.drop_last()) + (match oa.spec_op_access(pcs.last()) { Some(Ok(op)) => og.spec_cost(op) as int, _ => 0 }) } }
+pub open spec fn trace_fetched<OA: OpAccess<Op = Op>>(oa: OA, pcs: Seq<usize>) -> bool {
+    forall|i: int| 0 <= i < pcs.len() ==> (#[trigger] oa.spec_op_access(pcs[i])) matches Some(Ok(_)) }
+// the visited program counters form a path: each step continues where the previous op's control-flow result says (C09)
+pub open spec fn path_ok<OA: OpAccess<Op = Op>>(oa: OA, pc0: usize, halt0: bool, pcs: Seq<usize>, ctrls: Seq<Option<ProgramControlFlow>>) -> bool {
+    pcs.len() == ctrls.len() && (pcs.len() > 0 ==> pcs[0] == pc0)
+    && (forall|i: int| 0 <= i < pcs.len() ==> (match #[trigger] oa.spec_op_access(pcs[i]) { Some(Ok(op)) => crate::total_control_flow::ctrl_kind_ok(op, ctrls[i]), _ => false }))
+    && (forall|i: int| 0 <= i < pcs.len() - 1 ==> !crate::total_control_flow::ctrl_stops(#[trigger] ctrls[i], halt0)
+            && pcs[i + 1] as int == crate::total_control_flow::ctrl_next(pcs[i], ctrls[i])) }
+// how a successful run ends: after a stopping op (Halt / ComputeEnd / halting Compute) or when the pc leaves the program
+pub open spec fn run_end_ok<OA: OpAccess<Op = Op>>(oa: OA, pc0: usize, halt0: bool, pcs: Seq<usize>, ctrls: Seq<Option<ProgramControlFlow>>, pc_end: usize, halt_end: bool) -> bool {
+    if pcs.len() == 0 { pc_end == pc0 && halt_end == halt0 && oa.spec_op_access(pc0) is None } else {
+        let c = ctrls.last(); let p = pcs.last();
+        pc_end as int == crate::total_control_flow::ctrl_next(p, c)
+        && (crate::total_control_flow::ctrl_stops(c, halt0) || oa.spec_op_access(pc_end) is None)
+        && halt_end == (halt0 || (c matches Some(ProgramControlFlow::ComputeResult((_, _, h))) && h)) } }
+""")
+    EXEC_ENS = """vm_wf(*final(self)),
+            r matches Ok(g) ==> g <= gas_limit.total && exists|pcs: Seq<usize>, child: Seq<u64>, ctrls: Seq<Option<ProgramControlFlow>>|
+                trace_fetched(op_access, pcs) && g == trace_cost(op_access, *op_gas_cost, pcs) + crate::sum_u64(child)
+                && path_ok(op_access, old(self).pc, old(self).halt, pcs, ctrls)
+                && run_end_ok(op_access, old(self).pc, old(self).halt, pcs, ctrls, final(self).pc, final(self).halt),
+            r matches Err(ExecError(p, e)) ==> p == final(self).pc,
+            r matches Err(ExecError(p, OpError::OutOfGas(oog))) ==> (op_access.spec_op_access(p) matches Some(Ok(_))) ==>
+                oog.limit == gas_limit.total && oog.spent <= gas_limit.total && oog.spent + oog.op_gas > gas_limit.total"""
+    EXEC_INV = """vm_wf(*self), crate::access::access_wf(access), op_access.spec_op_access(usize::MAX) is None,
+                gas_spent <= gas_limit.total, trace_fetched(op_access, pcs),
+                gas_spent == trace_cost(op_access, *op_gas_cost, pcs) + crate::sum_u64(child),
+                path_ok(op_access, old(self).pc, old(self).halt, pcs, ctrls)"""
+    EXEC_INV_NB = """self.halt == old(self).halt, pcs.len() == 0 ==> self.pc == old(self).pc,
+                pcs.len() > 0 ==> !crate::total_control_flow::ctrl_stops(ctrls.last(), old(self).halt) && self.pc as int == crate::total_control_flow::ctrl_next(pcs.last(), ctrls.last())"""
+    EXEC_LOOP_ENS = 'run_end_ok(op_access, old(self).pc, old(self).halt, pcs, ctrls, self.pc, self.halt)'
+    EXEC_KW = dict(
+          requires='vm_wf(*old(self)), crate::access::access_wf(access), op_access.spec_op_access(usize::MAX) is None',
+          head_ghost='let ghost mut pcs: Seq<usize> = Seq::empty(); let ghost mut child: Seq<u64> = Seq::empty(); let ghost mut ctrls: Seq<Option<ProgramControlFlow>> = Seq::empty();',
+          rewrites=[('R3', 'self.halt |= halt;', 'self.halt = self.halt || halt;'),
+                    ('R9', '|err| ExecError(self.pc, err.into())', '|err: OA::Error| -> (o: ExecError<S::Error>) ensures o.0 == self.pc { ExecError(self.pc, err.into()) }'),
+                    ('R1', '|&spent| spent <= gas_limit.total', '|spent_r: &u64| -> (b: bool) ensures b == (*spent_r <= gas_limit.total) { let spent = *spent_r; spent <= gas_limit.total }', 'all')],
+          hints=[('gas_spent = next_spent;', 'after', 'let old_pcs = pcs; pcs = pcs.push(self.pc); assert(pcs.drop_last() =~= old_pcs);'),
+                 ('match update {', 'before', 'let old_ctrls = ctrls; ctrls = ctrls.push(update); assert(ctrls.drop_last() =~= old_ctrls);'),
+                 ('self.pc = pc;', 'before', 'let old_child = child; child = child.push(gas); assert(child.drop_last() =~= old_child);')])
+    vmm.impl('impl Vm', [
+        F('exec', attrs=['#[verifier::exec_allows_no_decreases_clause]'], ensures=EXEC_ENS, loops={0: {'invariant': EXEC_INV, 'invariant_except_break': EXEC_INV_NB, 'ensures': EXEC_LOOP_ENS}},
+          props=('C05', 'C07', 'C09', 'C10'), **EXEC_KW),
+        # second weaving of the same text: termination for positive costs (C07), variant = remaining gas
+        F('exec', rename='exec__term', ensures=EXEC_ENS, canary=False,
+          loops={0: {'invariant': EXEC_INV + ', forall|o: Op| #[trigger] op_gas_cost.spec_cost(o) >= 1', 'invariant_except_break': EXEC_INV_NB, 'ensures': EXEC_LOOP_ENS,
+                     'decreases': 'gas_limit.total - gas_spent'}},
+          props=('C07',), **dict(EXEC_KW, requires=EXEC_KW['requires'] + ', forall|o: Op| #[trigger] op_gas_cost.spec_cost(o) >= 1')),
+        F('eval', requires='vm_wf(*old(self)), crate::access::access_wf(access), op_access.spec_op_access(usize::MAX) is None',
+          ensures="""vm_wf(*final(self)),
+            r matches Ok(b) ==> final(self).stack@.len() > 0 && w2b(final(self).stack@.last()) == Some(b),
+            r matches Err(EvalError::InvalidEvaluation(st)) ==> final(self).stack@.len() == 0 || w2b(final(self).stack@.last()) is None""",
+          rewrites=[('R1', 'Some(&w) => w,', 'Some(w_r) => *w_r,'),
+                    ('R9', '|| EvalError::InvalidEvaluation(self.stack.clone())', '|| -> (o: EvalError<S::Error>) ensures o is InvalidEvaluation { EvalError::InvalidEvaluation(self.stack.clone()) }')],
+          props=('C05', 'C09')),
+    ])
     return u
